@@ -35,4 +35,11 @@ TEXT = {
                        "and by an independent recogniser; formatting, string_len and Eq/Hash/Ord across representations are checked on every accepted one"),
         "level_note": "trusts vref::sig (libdbus-confirmed vectors); exhaustive only up to the stated length",
     },
+    "C03": {
+        "technique": "differential monitor: library decoder vs validating reference unmarshaller on valid, mutated and random bytes",
+        "level_text": ("the real D-Bus decoder and an independent validating unmarshaller judge the same bytes (valid encodings, structure-aware "
+                       "mutations, random bytes, directed invalid vectors); any accept/reject, value or consumed-length disagreement is a finding "
+                       "keyed by the reference's rejection cause. " + SAN),
+        "level_note": "trusts vref::dbus::unmarshal; reach is bounded by the mutators (1-2 stacked mutations of valid encodings)",
+    },
 }
